@@ -3162,6 +3162,10 @@ impl Block {
             error!("ERROR 48203: block has fee transaction but no golden ticket");
             return false;
         }
+        if validate_against_utxo && cv.ft_num == 0 && cv.fee_transaction.is_some() {
+            error!("ERROR 48205: block has a golden ticket but lacks the fee transaction");
+            return false;
+        }
         if cv.ft_num > 0 {
             if let (Some(ft_index), Some(fee_transaction_expected)) =
                 (cv.ft_index, cv.fee_transaction)
